@@ -252,7 +252,7 @@ func Record(args []string) {
 	fs := flag.NewFlagSet("printer record", flag.ExitOnError)
 	out := fs.String("out", "", "trace file")
 	seed := fs.Int64("seed", 1, "seed")
-	repo := fs.String("repo", "/repo", "repository (js test literals are harvested from it)")
+	repo := fs.String("repo", reg.Repo(), "repository (js test literals are harvested from it)")
 	nh := fs.Int("harvest", 500, "harvested literals to try")
 	ncomb := fs.Int("combos", 400, "random combinations of snippets to try")
 	maxExtra := fs.Int("maxextra", 2000, "programs to take from the -extra files (seeded choice)")
